@@ -39,7 +39,7 @@ func evalC12(c *Ctx, op string, b []byte, canonical bool) error {
 				return "(decoded (ok " + b1 + "))"
 			}
 			m2 = normNext(sxMsg(mm)).String()
-			if w2, err := mm.Encode(); err != nil {
+			if w2, err, crashed := encodeGuard(mm); err != nil || crashed {
 				b2 = "err"
 			} else {
 				b2 = hx(w2)
@@ -118,6 +118,13 @@ func evalC12(c *Ctx, op string, b []byte, canonical bool) error {
 		r.Add(Finding{Kind: "instance", What: "decoding the re-encoding of a decoded message gives a different message (or fails)", Case: cs, Expected: m1, Observed: m2})
 	} else if b2 != b1 {
 		r.Add(Finding{Kind: "instance", What: "no fixed point after one step: the second re-encoding differs from the first", Case: cs, Expected: b1, Observed: b2})
+	}
+	// canonical by construction, or canonical by the verified model: the model's decode-then-encode reproduces the input
+	// octet for octet, which it cannot do for a datagram with a reserved bit set or an unsupported payload (it writes
+	// zeros and drops what it skipped) - the property then demands a byte-identical re-encoding
+	if model == "(decoded (ok "+hx(b)+"))" {
+		canonical = true
+		r.Hist[op+":canonical-by-the-model"]++
 	}
 	if canonical && b1 != hx(b) {
 		r.Add(Finding{Kind: "instance", What: "re-encoding of a canonical datagram is not byte-identical", Case: cs, Expected: hx(b), Observed: b1})
